@@ -297,20 +297,35 @@ def letters_for(cfg):
 # ------------------------------------------------------------------------------------------------ schedules
 def make_sched_run(cfg):
     from vf import sched as S
+    from vf.memnet import MemNet
     install_shims()
-    from Pyro5 import server, config, errors
+    from Pyro5 import server, config, errors, core
     from Pyro5.callcontext import current_context
+    worlds = []
+    daemons = []
+
+    def cleanup():
+        while daemons:
+            try:
+                daemons.pop().close()
+            except Exception:
+                pass
+        while worlds:
+            worlds.pop().uninstall()
     watch = S.watch_functions(server.DaemonObject.get_next_stream_item, server.DaemonObject.close_stream, server.Daemon._clientDisconnect, server.Daemon._housekeeping)
 
     class Conn:
         pass
 
     def build():
-        d = server.Daemon.__new__(server.Daemon)
-        d.streaming_responses = {}
-        d.housekeeper_lock = server.threading.Lock()
-        d._Daemon__mustshutdown = S.CoopEvent()
-        dobj = server.DaemonObject(d)
+        # a real daemon (multiplex transport on the in-memory network; its loop is not run: the stream methods are driven directly)
+        config.SERVERTYPE = "multiplex"
+        net = MemNet()
+        net.install()
+        worlds.append(net)
+        d = server.Daemon(host="h", port=1)
+        daemons.append(d)
+        dobj = d.objectsById[core.DAEMON_NAME]
         conn = Conn()
         other = Conn()
         pulled = []
@@ -356,11 +371,16 @@ def make_sched_run(cfg):
                 except Exception as x:
                     res[i] = ("internal", type(x).__name__)
             outs.add((tuple(r[:2] if r[0] == "item" else r[:1] for r in res), tuple(sorted(d.streaming_responses)), len(pulled)))
+            cleanup()
         return outs
+
+    cache = {}
 
     def run_fn(chooser):
         config.reset(False)
-        serial = serial_outcomes()
+        if "serial" not in cache:
+            cache["serial"] = serial_outcomes()      # the outcomes of all serial orders, computed once per configuration
+        serial = cache["serial"]
         config.ITER_STREAM_LIFETIME = cfg["lifetime"]
         config.ITER_STREAM_LINGER = cfg["linger"]
         sch = S.Scheduler(chooser, watch=watch)
@@ -398,6 +418,7 @@ def make_sched_run(cfg):
         finally:
             sch.teardown()
             current_context.client = None
+            cleanup()
     return run_fn
 
 
@@ -473,7 +494,7 @@ def run(ctx):
     cov["exhaustive"] = not capped
     return {"violations": total.violations, "coverage": cov,
             "assumptions": ["expiry takes effect at the first housekeeping pass after the deadline (the multiplex event handler runs one after every request)",
-                            "schedule part runs on a transport-less daemon shell"]}
+                            "schedule part drives the stream methods of a real daemon directly"]}
 
 
 def _expand_wrapper(unit):
